@@ -146,6 +146,19 @@ def check_template(ctx, t, sweep=True):
                     ctx.obs["partial_exact_skipped"] += 1
 
 
+def explicit_variant(ctx, t):
+    """The same loop declared through Graph(edges=[...]) with every arrow of the diagram spelled out: producer ->
+    consumer pairs (the self-arrow of a node that consumes its own output included), signal producer -> waiter, and
+    gate -> each of its targets. The loop must iterate exactly as with inferred edges."""
+    from hgmon import gen
+
+    if any(ns["k"] == "sub" for ns in t["spec"]["nodes"]) or t["ref"].get("mechanism"):
+        return
+    t2 = {**t, "spec": gen.with_explicit_edges(t["spec"], self_edges=True), "template": t["template"] + "+explicit-edges"}
+    ctx.obs["explicit_edge_templates"] += 1
+    check_template(ctx, t2, sweep=False)
+
+
 def run(ctx):
     if ctx.replay:
         c = ctx.replay["case"]
@@ -178,8 +191,11 @@ def run(ctx):
             sysn += 1
             t = mk()
             check_template(ctx, t)
+            explicit_variant(ctx, t)
             ctx.case({"t": t["template"], "in": t["inputs"], "N": N}, sum(t["ref"]["counts"].values()) > 1, sample={"template": t["template"], "inputs": t["inputs"], "spec": t["spec"], "expected": t["ref"]["values"]} if N == 2 else None)
     for i in range(n):
         t = loops.gen_loop(ctx.rng)
         check_template(ctx, t, sweep=ctx.rng.random() < 0.5)
+        if ctx.rng.random() < 0.4:
+            explicit_variant(ctx, t)
         ctx.case({"t": t["template"], "in": t["inputs"], "n": str(t["ref"]["counts"])}, sum(t["ref"]["counts"].values()) > 1)
